@@ -212,7 +212,9 @@ def handle (j : Json) : Json :=
         ("inferred", optStringJson (renderWithInferredLifetimes lk a))])
     ]
     let extra : List (String × Json) :=
-      if wfReq then [("reparse_a", match parse (renderD false a) with | some t => tyToJson t | none => Json.null)] else []
+      if wfReq then [
+        ("reparse_a", match parse (renderD false a) with | some t => tyToJson t | none => Json.null),
+        ("reparse_type_a", match (renderLk lk false a).bind parse with | some t => tyToJson t | none => Json.null)] else []
     Json.mkObj (base ++ extra)
   | _, _, _, _ => Json.mkObj [("r", "bad-op")]
 
